@@ -63,7 +63,8 @@ type TPacket struct {
 	closed    *vs.Chan[struct{}]
 	isClosed  bool
 	poll      time.Duration
-	inRead    int // reads in flight
+	errSticky bool // the link went down while the socket was open: every poll fails from then on
+	inRead    int  // reads in flight
 	Delivered int
 	krx, ktx  int // KernelBPF: a unix datagram pair whose receiving end carries the same filter
 	kbuf      []byte
@@ -178,6 +179,7 @@ func NewTPacket(opts ...interface{}) (*TPacket, error) {
 		return nil, errors.New("bind: no such device " + t.iface)
 	}
 	t.id = len(W.Socks)
+	t.errSticky = W.LinkDown // bound to a device that is down: the socket starts with ENETDOWN pending
 	W.Opened = append(W.Opened, t.iface)
 	W.Socks = append(W.Socks, t)
 	if W.OnOpen != nil {
@@ -281,10 +283,14 @@ func (t *TPacket) ZeroCopyReadPacketData() ([]byte, gopacket.CaptureInfo, error)
 	if t.isClosed {
 		panic(crashAfterClose)
 	}
-	if W.LinkDown {
-		var down bool
-		vs.Visible("wire.poll", func() { down = W.LinkDown })
-		if down {
+	if t.errSticky {
+		// the socket carries a pending error (ENETDOWN, set when its link went down) and nothing in afpacket ever
+		// clears it: poll(2) reports POLLERR at once, for the rest of the socket's life, link back or not. A frame that
+		// is already in the ring is still handed out (the ring is looked at before poll is called). Compared with the
+		// real socket by c20ring.
+		var empty bool
+		vs.Visible("wire.poll", func() { empty = t.rx.Len() == 0 })
+		if empty {
 			return nil, gopacket.CaptureInfo{}, ErrPoll
 		}
 	}
@@ -322,12 +328,16 @@ func (t *TPacket) ReadPacketDataTo(data []byte) (gopacket.CaptureInfo, error) {
 	return ci, nil
 }
 
-// SetLinkDown changes the state of the link; going down wakes every waiting read with ErrPoll.
+// SetLinkDown changes the state of the link; going down wakes every waiting read with ErrPoll and leaves
+// every open socket with a pending error that outlives the outage (see ZeroCopyReadPacketData).
 // Non-blocking: usable from events and environment threads.
 func SetLinkDown(down bool) {
 	W.LinkDown = down
 	if down {
 		for _, s := range W.Socks {
+			if !s.isClosed {
+				s.errSticky = true
+			}
 			if !s.isClosed && s.inRead > 0 {
 				s.rx.Push(rxFrame{pollErr: true})
 			}
@@ -408,6 +418,9 @@ func (t *TPacket) Iface() string { return t.iface }
 // with cap == len, the way the mmap ring hands out slices. Non-blocking: usable from events.
 func Inject(frame []byte) int {
 	n := 0
+	if W.LinkDown {
+		return 0 // no carrier: nothing arrives
+	}
 	for _, s := range W.Socks {
 		if s.isClosed && s.inRead == 0 {
 			continue
